@@ -34,26 +34,7 @@ var c15Check = register("C15", "c15.error", func(c *errCase) error {
 	s := string(c.Text)
 	toks := strings.Split(ref.NFKD(s), " ")
 	// the generator's claim about the defect class is re-derived with the reference model
-	var unknown []string
-	for _, tk := range toks {
-		if _, ok := ref.WordIndex(l, tk); !ok {
-			unknown = append(unknown, tk)
-		}
-	}
-	idx, allKnown := ref.TokensIndices(l, toks)
-	var class string
-	switch {
-	case allKnown && ref.IndicesValid(idx):
-		class = "valid"
-	case allKnown && ref.ValidCount(len(toks)):
-		class = "checksum"
-	case allKnown || (len(toks) == 1 && toks[0] == ""):
-		class = "count" // k list words, k not acceptable (k = 0 is the empty string)
-	case ref.ValidCount(len(toks)):
-		class = "unknown"
-	default:
-		class = "combined"
-	}
+	class, unknown := classifyText(l, s)
 	if class != c.Want {
 		harnessError("c15: case built as %q is %q for the reference model: %q", c.Want, class, s)
 	}
@@ -75,6 +56,12 @@ var c15Check = register("C15", "c15.error", func(c *errCase) error {
 		return failf(sig+" panic", "CheckMnemonic(%q, %s) panicked: %v", s, l, p)
 	}
 	switch c.Want {
+	case "combined":
+		// more than one defect (wrong count and unknown tokens, empty tokens, ...): which error is
+		// returned is open, but "a nil error is returned only for valid sentences"
+		if err == nil {
+			return failf(sig+" nil", "CheckMnemonic(%q, %s) = nil for a sentence with several defects (%d tokens, unknown: %q)", clip(s), l, len(toks), unknown)
+		}
 	case "valid":
 		if err != nil {
 			return failf(sig, "CheckMnemonic(%q, %s) = %v for a valid sentence", s, l, err)
@@ -284,6 +271,16 @@ func c15ErrorsProp(rt *rapid.T) {
 		cov.Class("compat-space-separators")
 	}
 	c := &errCase{Lang: l.Name(), Text: text(s), Want: want}
+	if rapid.IntRange(0, 3).Draw(rt, "defect-program") == 0 {
+		// one case in four: a sentence damaged by one of the generic defect programs (numbered
+		// recovery sheets, missing separators, detached marks, giant tokens, ...), classified by the
+		// reference model; with several defects at once only "not nil" is asserted
+		m := gen.Defect().Draw(rt, "defect")
+		class, _ := classifyText(m.Lang, m.Text)
+		c = &errCase{Lang: m.Lang.Name(), Text: text(m.Text), Want: class}
+		l, want = m.Lang, class
+		cov.Class("defect-program=" + m.Class)
+	}
 	if want == "valid" && rapid.Bool().Draw(rt, "then-other-language") {
 		// the sentence was just accepted under its own language; now it is judged under another
 		// one, where it has unknown tokens (or, for shared words, only a checksum defect)
